@@ -271,11 +271,22 @@ func genQuorum(repo string) (string, error) {
 		}
 		g := gs[len(gs)-1]
 		be, ok := stripParens(g.e).(*ast.BinaryExpr)
-		if !ok || !g.pos {
+		if !ok {
 			return
 		}
+		op := be.Op
+		if !g.pos { // reached because the condition was FALSE: `if k+1 < q { continue }; return proposer`
+			switch op {
+			case token.LSS:
+				op = token.GEQ
+			case token.GTR:
+				op = token.LEQ
+			default:
+				return
+			}
+		}
 		x, y := inlineLocals(be.X, defs), inlineLocals(be.Y, defs)
-		switch be.Op {
+		switch op {
 		case token.GEQ:
 			ccX, ccY = x, y
 		case token.LEQ:
